@@ -682,10 +682,11 @@ def path_conditions(body, target, want, limit=4000, track_consts=False, else_set
             if len(edges) == 2 and edges[1][0].startswith(("else", "!{")) and t.get("discr_ty") == "bool":
                 edges = [edges[0], ("1" if edges[0][0] == "0" else "0", edges[1][1])]
             d = t["discr"]
-            if env is not None and d.get("k") in ("copy", "move") and not d["p"]["proj"] and env.get(d["p"]["l"]) is not None:
+            if env is not None and d.get("k") in ("copy", "move") and not d["p"]["proj"] and env.get(d["p"]["l"]) is not None and not isinstance(env.get(d["p"]["l"]), tuple):
                 v = str(env[d["p"]["l"]])
                 taken = [e for e in edges if e[0] == v] or [e for e in edges if e[0].startswith(("else", "!{"))]
-                return taken[:1]
+                # decided by a constant assigned on this path: no new information, no atom
+                return [(None, tb) for _, tb in taken[:1]]
             return edges
         return [(None, s2) for s2 in body.succs(bi)]
 
@@ -709,8 +710,18 @@ def path_conditions(body, target, want, limit=4000, track_consts=False, else_set
                         if v0 in (0, 1, True, False):
                             val = 1 - int(v0)
                     env[st_["p"]["l"]] = val
+            # a bool temporary that joins a constant with a computed value (`match a && b`): on this path its value is the
+            # value computed here, so a later switch on it is a decision on that expression, like `if a && b`
+            t_ = body.blocks[bi]["term"]
+            if t_["k"] == "call" and t_.get("dest") and not t_["dest"]["proj"] and body.local_ty(t_["dest"]["l"]) == "bool":
+                env[t_["dest"]["l"]] = ("x", pp_x(xb.expr_of_call(t_, 12, None, (bi, "term"))))
         res = set()
         d = discr(bi)
+        tsw = body.blocks[bi]["term"]
+        if env is not None and tsw["k"] == "switch" and tsw["discr"].get("k") in ("copy", "move") and not tsw["discr"]["p"]["proj"]:
+            ev = env.get(tsw["discr"]["p"]["l"])
+            if isinstance(ev, tuple) and ev[0] == "x" and (want(ev[1]) or d is not None):
+                d = ev[1]
         for lab, nb in edges_of(bi, env):
             if nb not in can or nb in onpath:
                 continue
@@ -818,10 +829,11 @@ def complete_conds(body, bi, limit=3000):
                 changed = True
         # merging: X&(D=l1) | X&(D=l2) | ... covering every label of D  =  X
         byrest = {}
-        for t in terms:
-            for (d, l) in t:
+        key = lambda t: sorted(t)
+        for t in sorted(terms, key=key):                     # deterministic order: the reduction is not confluent
+            for (d, l) in sorted(t):
                 byrest.setdefault((t - {(d, l)}, d), set()).add(l)
-        for (rest, d), labs in byrest.items():
+        for (rest, d), labs in sorted(byrest.items(), key=lambda kv: (sorted(kv[0][0]), kv[0][1])):
             if len(labs) > 1 and labs >= uni.get(d, {"?"}):
                 for l in labs:
                     terms.discard(rest | {(d, l)})
@@ -857,11 +869,11 @@ def skeleton(F, path, depth=0):
             if s["k"] == "assign" and s["p"]["l"] == 0 and not s["p"]["proj"]:
                 if conds is None:
                     conds = cs()
-                out.append("%s[%s] ret := %s" % (nest, conds, pp_x(shape.subst_upvars(xb.expr_of_rvalue(s["rv"], 10, (bi, si)), up))))
+                out.append((bi, "%s[%s] ret := %s" % (nest, conds, pp_x(shape.subst_upvars(xb.expr_of_rvalue(s["rv"], 10, (bi, si)), up)))))
             elif s["k"] == "assign" and s["p"]["proj"] and (s["p"]["proj"][0] == "deref" or b.is_arg(s["p"]["l"])):
                 if conds is None:
                     conds = cs()
-                out.append("%s[%s] %s := %s" % (nest, conds, pp_x(shape.subst_upvars(xb.expr_of_place(s["p"], 8, (bi, si)), up)), pp_x(shape.subst_upvars(xb.expr_of_rvalue(s["rv"], 10, (bi, si)), up))))
+                out.append((bi, "%s[%s] %s := %s" % (nest, conds, pp_x(shape.subst_upvars(xb.expr_of_place(s["p"], 8, (bi, si)), up)), pp_x(shape.subst_upvars(xb.expr_of_rvalue(s["rv"], 10, (bi, si)), up)))))
         t = blk["term"]
         if t["k"] == "call":
             f = t["func"]
@@ -873,8 +885,23 @@ def skeleton(F, path, depth=0):
                 conds = cs()
             args = ", ".join(pp_x(shape.subst_upvars(xb.expr_of_operand(a, 8, (bi, "term")), up)) for a in t.get("args", []))
             dst = t.get("dest")
-            out.append("%s[%s] %s%s(%s)" % (nest, conds, "ret := " if dst and dst["l"] == 0 and not dst["proj"] else "", name, args))
-    s = " ;; ".join(out)
+            out.append((bi, "%s[%s] %s%s(%s)" % (nest, conds, "ret := " if dst and dst["l"] == 0 and not dst["proj"] else "", name, args)))
+    # canonical order: entries on one path keep their order (rank = longest chain of entries before it, back edges
+    # ignored); entries of alternative branches, whose layout order is arbitrary, are ordered by text
+    order = _rpo(b)
+    posn = {x: i for i, x in enumerate(order)}
+    per = {}
+    for bi, txt in out:
+        per.setdefault(bi, []).append(txt)
+    rank = {}
+    preds = b.preds()
+    for x in order:
+        rank[x] = max([rank[p] + len(per.get(p, [])) for p in preds[x] if p in rank and posn.get(p, 1 << 30) < posn[x]] or [0])
+    ranked = []
+    for bi, txts in per.items():
+        for i, txt in enumerate(txts):
+            ranked.append((rank.get(bi, 0) + i, txt))
+    s = " ;; ".join(x for _, x in sorted(ranked))
     if depth > 3:
         return anon_locals(s)
 
@@ -904,7 +931,7 @@ def _alt_table():
 
 def full_form(F, path):
     """return cases (closures inlined) + effect skeleton: the complete normal form used for the table of equivalent spellings"""
-    return anon_locals(deep(F, path)) + " || " + skeleton(F, path)
+    return skeleton(F, path)
 
 
 def form_hash(s):
